@@ -6,7 +6,8 @@ from .. import monitor, refs
 from ..core import Workload
 from ..env import ptn
 
-KINDS = ['real', 'complex', 'symmetric', 'zero-padded', 'single-entry', 'hermitian', 'integer-valued', 'mixed-magnitude', 'lower-triangular-storage']
+KINDS = ['real', 'complex', 'symmetric', 'zero-padded', 'single-entry', 'hermitian', 'integer-valued', 'mixed-magnitude', 'lower-triangular-storage',
+         'antisym-ij', 'antisym-kl', 'antisym-both', 'sym-ij', 'product-antisym', 'fully-symmetric']
 
 
 def coeffs(rng, L, kind):
@@ -55,6 +56,26 @@ def coeffs(rng, L, kind):
         return t, v
     if kind == 'integer-valued':
         return rng.integers(-2, 3, size=(L, L)), rng.integers(-2, 3, size=(L, L, L, L))
+    if kind in ('antisym-ij', 'antisym-kl', 'antisym-both', 'sym-ij', 'product-antisym', 'fully-symmetric'):
+        # interaction tensors with an EXACT (bitwise) index symmetry: already antisymmetrised input, vanishing antisymmetric part, ...
+        t = c(L, L) if rng.random() < 0.5 else rng.normal(size=(L, L))
+        v = c(L, L, L, L) if rng.random() < 0.5 else (rng.normal(size=(L, L, L, L)) if rng.random() < 0.7 else rng.integers(-3, 4, size=(L, L, L, L)))
+        if kind in ('antisym-ij', 'antisym-both'):
+            v = v - v.transpose(1, 0, 2, 3)
+        if kind in ('antisym-kl', 'antisym-both'):
+            v = v - v.transpose(0, 1, 3, 2)
+        if kind == 'sym-ij':
+            v = v + v.transpose(1, 0, 2, 3)
+        if kind == 'product-antisym':
+            a = rng.normal(size=(L, L)); b = rng.normal(size=(L, L))
+            a = a - a.T
+            if rng.random() < 0.5:
+                b = b - b.T
+            v = np.einsum('ij,kl->ijkl', a, b)
+        if kind == 'fully-symmetric':
+            import itertools
+            v = sum(v.transpose(p) for p in itertools.permutations(range(4)))
+        return t, v
     raise ValueError(kind)
 
 
@@ -105,7 +126,7 @@ def check_build(ctx, spin, L, t, v, kind):
     if True in mats and False in mats:
         ctx.close(f'{tag}.optimized==explicit', maxdiff(mats[True], mats[False]), 1e-11 * sc, 'the two build paths denote different operators', detail)
     ctx.ok(f'{tag}.coefficients-unchanged', np.array_equal(t, t0) and np.array_equal(v, v0), 'coefficient tensors modified', detail)
-    if ctx.cur[1] % 3 == 0 and L <= 5 and np.issubdtype(np.asarray(t).dtype, np.inexact) and t.flags.writeable and v.flags.writeable:
+    if ctx.cur[1] % 3 == 0 and L <= 5 and np.issubdtype(np.asarray(t).dtype, np.inexact) and np.issubdtype(np.asarray(v).dtype, np.inexact) and t.flags.writeable and v.flags.writeable:
         # history: the SAME coefficient array objects changed in place, both constructions asked again
         t *= -0.5
         v[..., 0] *= 3.0
@@ -209,8 +230,8 @@ SPEC = {
                  'spinmol.matrix==second-quantised-formula[opt]', 'spinmol.matrix==second-quantised-formula[explicit]', 'spinmol.optimized==explicit',
                  'gauge.transforms-to-rotated-operator'],
     'workloads': [
-        Workload('spinless', spinless_case, quick=7 * 9 * 2, thorough=9 * 9 * 20),
-        Workload('spin', spin_case, quick=5 * 9, thorough=6 * 9 * 8),
+        Workload('spinless', spinless_case, quick=7 * len(KINDS) * 2, thorough=9 * len(KINDS) * 20),
+        Workload('spin', spin_case, quick=5 * len(KINDS), thorough=6 * len(KINDS) * 8),
         Workload('gauge', gauge_case, quick=70, thorough=2800),
     ],
     'shards': {'quick': 4, 'thorough': 16},
